@@ -389,6 +389,25 @@ Fixpoint canon (ss : list opsyn) (ops : list operand) : option (list operand) :=
                end
   end.
 
+(* syntaxes for which the canonical form needs a side condition of the row: an omitted shift is written LSL #0 (LSL must be an allowed
+   kind and 0 an allowed amount), a register list has at least one member *)
+Definition syn_canon_ok (s : opsyn) : bool :=
+  match s with
+  | SShift _ _ kinds maxn => Z.testbit kinds 0 && (0 <? maxn)
+  | SVecList n _ _ _ => negb (Nat.eqb n 0)
+  | SVecListElem n _ _ _ _ _ => negb (Nat.eqb n 0)
+  | _ => true
+  end.
+
+(* the extended-register operand is the last one of its forms (the encoder looks at the whole remaining list) *)
+Definition syn_last (s : opsyn) : bool := match s with SExtReg _ _ _ _ => true | _ => false end.
+
+Fixpoint canon_row_ok (ss : list opsyn) : bool :=
+  match ss with
+  | [] => true
+  | s :: sr => syn_canon_ok s && (if syn_last s then match sr with [] => true | _ => false end else true) && canon_row_ok sr
+  end.
+
 (* hi ids of the generated rows are 31 or 63 *)
 Definition syn_hi_ok (s : opsyn) : bool :=
   match s with SGp _ hi _ | SGpDup _ hi _ _ => (hi =? 31) || (hi =? 63) | _ => true end.
@@ -476,6 +495,25 @@ Definition row_wf (r : row) : bool :=
   && forallb (fun p => existsb (pair_eqb p) sf) (r_fields r)
   && (length sf =? length (r_fields r))%nat && nodupb (map fst sf).
 
+(* operand syntaxes that are BIJECTIVE between in-range field values and valid operands (the others have several encodings of one operand
+   - bitmask immediates with a non-canonical N:immr:imms, zero write-back, imm12 0 with lsl #12 - or optional / look-ahead operands) *)
+Definition syn_bij (s : opsyn) : bool :=
+  match s with
+  | SGp _ _ _ | SImmU _ _ _ | SImmS _ _ | SImmLt _ _ _ | SImmConst _ | SRel _ _ _ | SMemOff _ _ _ _ _ _ | SMemLit _ _
+  | SVec _ _ _ _ | SVecElem _ _ _ _ _ _ | SSysReg _ | SImmRsub _ _ _ _ _ | SImmAff _ _ _ _ | SMemPostImm _ _ | SMemPostReg _ _
+  | SSysOp _ _ _ _ | SCond _ _
+  | SShift _ _ _ _ | SVShift _ _ _ _ | SMemBase _ | SGpPair _ _ | SMovW _ _ _
+  | SVecList _ _ _ _ | SVecListElem _ _ _ _ _ _ | SFpImm _ _ | SAddImm _ _ | SExtReg _ _ _ _ => true
+  | _ => false
+  end.
+
+(* ---- completeness of the template codec (every word that carries the fixed bits is the encoding of its own field values) ---- *)
+(* the environment read from a word: every field of the template with the value tfield reads *)
+Definition env_of (t : tmpl) (w : Z) : env := map (fun f => (f, tfield t w f)) (tfields t).
+(* templates whose fields are written as ONE whole slice each (TField f (W-1) 0, every field once): scope of C02_tmpl_complete_simple *)
+Definition simple_item (i : titem) : bool := match i with TField _ _ lo => lo =? 0 | TFixed _ _ => true end.
+Definition tsimple (t : tmpl) : bool := forallb simple_item t && nodupb (tfields t).
+
 (* ---- pairwise disjointness of the rows: two rows whose FIXED bits differ somewhere can never produce the same word ---- *)
 (* signature of a row: (id, fixed-bit value, fixed-bit mask) *)
 Definition row_sig (r : row) : Z * Z * Z := (r_id r, tfixed (r_tmpl r), tmask (r_tmpl r)).
@@ -490,6 +528,9 @@ Definition sig_ok (ov : list (Z * Z * Z)) (a b : Z * Z * Z) : bool :=
   if i1 =? i2 then true else if sig_conflict f1 m1 f2 m2 then true else in_overlap ov i1 i2.
 Definition sigs_pairwise_ok (ov : list (Z * Z * Z)) (sigs : list (Z * Z * Z)) : bool :=
   forallb (fun a => forallb (sig_ok ov a) sigs) sigs.
+(* the same check over the unordered pairs only (each element against the ones after it): half the work of sigs_pairwise_ok *)
+Fixpoint sigs_tails_ok (ov : list (Z * Z * Z)) (sigs : list (Z * Z * Z)) : bool :=
+  match sigs with [] => true | a :: r => forallb (sig_ok ov a) r && sigs_tails_ok ov r end.
 (* the recorded list is tight: every recorded pair consists of two rows of the list whose fixed bits do not conflict *)
 Definition sig_of (sigs : list (Z * Z * Z)) (i : Z) : option (Z * Z) :=
   match find (fun x => let '(j, _, _) := x in j =? i) sigs with Some (_, f, m) => Some (f, m) | None => None end.
